@@ -298,6 +298,8 @@ def r_unordered(ctx, model):
     if not fc:
         raise AnalysisError("positive control for order-dependent consumption of a set failed")
     modsets, paramsets = set_typed_names(model, list(live_modules(model)))
+    from ..effects import io_reaching_functions
+    io_reach = io_reaching_functions(list(live_modules(model)))
     for mname, mod in live_modules(model):
         psets = {q_: v for (m_, q_), v in paramsets.items() if m_ == mname}
         for q, node, desc, consumer in unordered_comprehensions(mod, modsets.get(mname, ()), psets):
@@ -323,6 +325,18 @@ def r_unordered(ctx, model):
                     n += 1
                     ctx.violation(f"{q}:index-of-unordered", Where(mod.rel, q, s.lineno), expected="no positional pick from an unordered collection",
                                   found=src(s)[:80], explanation="an element is picked by position from an unordered collection", instance=f"{mname}:{q}")
+    # mappings whose key order is the iteration order of a set (the merged configuration): iterating them is iterating the set
+    from ..effects import order_tainted_iterations
+    for mname, mod, q, node, desc in order_tainted_iterations(model, list(live_modules(model)), modsets, paramsets):
+        n += 1
+        if isinstance(node, ast.For):
+            ok, why = commutative_body(node, mod.funcs.get(q), effectful=io_reach)
+        else:
+            ok, why = False, "a comprehension over it produces its items in that order"
+        ctx.check(ok, f"{mname}:{q} iterates over {desc}: commutative body", Where(mod.rel, q, getattr(node, "lineno", getattr(node.iter, "lineno", 0))),
+                  expected="look-ups by key, or a body whose effect does not depend on the order", found=why or src(node)[:100],
+                  explanation=f"{q} iterates over a mapping whose key order is hash-seed dependent ({desc}) and its body is order-dependent ({why}): which file is written last, "
+                              f"or in which order results are produced, changes with PYTHONHASHSEED", key=f"{q}:tainted-order:{src(node.iter)[:40]}")
     ctx.floor("iterations over unordered collections (positive control keeps the matcher honest)", n, 1)
 
 
